@@ -77,7 +77,10 @@ var recordFieldRe = regexp.MustCompile(`⟦rec(\d+)⟧((?:\.\w+)+)`)
 // through whole-record copies), so that facts the callee establishes about a field of the record it was handed
 // are facts about the value the caller put there.
 func (p *Prog) bindArgs(fn *ssa.Function, call *ssa.Call) ([]string, func(string) string) {
-	r := p.R(fn)
+	return p.bindArgsR(fn, p.R(fn), call)
+}
+
+func (p *Prog) bindArgsR(fn *ssa.Function, r *Renderer, call *ssa.Call) ([]string, func(string) string) {
 	bind := make([]string, len(call.Call.Args))
 	recs := map[int]*ssa.Alloc{}
 	for i, a := range call.Call.Args {
@@ -347,4 +350,83 @@ func (p *Prog) closureCallingOpt(outer *ssa.Function, pattern string) *ssa.Funct
 		}
 	}
 	return nil
+}
+
+
+// builtRecordFields: v is a record built from scratch — a local struct variable whose fields are stored one by one
+// (a composite literal) or the result of a repository constructor that builds such a record from its parameters.
+// Returns field name → rendering of the stored value in fn's terms; ok=false when v is anything else (e.g. loaded).
+func (p *Prog) builtRecordFields(fn *ssa.Function, v ssa.Value) (map[string]string, bool) {
+	r := p.R(fn)
+	for i := 0; i < 3; i++ {
+		switch x := v.(type) {
+		case *ssa.UnOp:
+			if x.Op == token.MUL {
+				v = x.X
+				continue
+			}
+		case *ssa.MakeInterface:
+			v = x.X
+			continue
+		}
+		break
+	}
+	switch x := v.(type) {
+	case *ssa.Alloc:
+		if _, isStruct := x.Type().(*types.Pointer).Elem().Underlying().(*types.Struct); !isStruct {
+			return nil, false
+		}
+		// a literal copied into a named local: follow the copy
+		if ws := r.wholeStores[x]; len(ws) == 1 {
+			if src := structCopySource(ws[0]); src != nil {
+				return p.builtRecordFields(fn, src)
+			}
+			if call, ok := ws[0].Val.(*ssa.Call); ok {
+				return p.builtRecordFields(fn, call)
+			}
+			return nil, false
+		} else if len(ws) > 1 {
+			return nil, false
+		}
+		out := map[string]string{}
+		for _, st := range r.fieldStores[x] {
+			if fa, ok := st.Addr.(*ssa.FieldAddr); ok && fa.X == ssa.Value(x) {
+				out[fieldName(fa.X.Type(), fa.Field)] = r.E(st.Val)
+			}
+		}
+		return out, true
+	case *ssa.Call:
+		g := x.Call.StaticCallee()
+		if g == nil || len(g.Blocks) == 0 || !isProdPkgFn(g) || p.isGenerated(g) {
+			return nil, false
+		}
+		bind := make([]string, len(x.Call.Args))
+		for i, a := range x.Call.Args {
+			bind[i] = r.E(a)
+		}
+		gr := p.RBound(g, bind, 1)
+		var out map[string]string
+		for _, b := range g.Blocks {
+			ret, ok := b.Instrs[len(b.Instrs)-1].(*ssa.Return)
+			if !ok || len(ret.Results) == 0 {
+				continue
+			}
+			rv := ret.Results[0]
+			if u, ok := rv.(*ssa.UnOp); ok && u.Op == token.MUL {
+				rv = u.X
+			}
+			al, ok := rv.(*ssa.Alloc)
+			if !ok || len(gr.wholeStores[al]) > 0 || out != nil {
+				return nil, false
+			}
+			out = map[string]string{}
+			for _, st := range gr.fieldStores[al] {
+				if fa, ok := st.Addr.(*ssa.FieldAddr); ok && fa.X == ssa.Value(al) {
+					out[fieldName(fa.X.Type(), fa.Field)] = gr.E(st.Val)
+				}
+			}
+		}
+		return out, out != nil
+	}
+	return nil, false
 }
